@@ -303,6 +303,17 @@ func safely(f func() error) (err error, panicked string) {
 
 func cacheCrashMain(args []string) {
 	o := hx.ParseOpts(args)
+	// the mutable cache packs into temporary directories of its own; a Store cut short by a fault leaves them behind:
+	// remove the ones this run created
+	started := time.Now().Add(-time.Second)
+	defer func() {
+		ms, _ := filepath.Glob(filepath.Join(os.TempDir(), "sharedmutablecache-packing*"))
+		for _, m := range ms {
+			if fi, err := os.Stat(m); err == nil && fi.ModTime().After(started) {
+				_ = os.RemoveAll(m)
+			}
+		}
+	}()
 	rep := hx.NewReport("both cache kinds x MemMapFs / OsFs: (1) Store(v1) then a Store(v2) whose backend stops from operation k on (write at the crash point cut short) or fails at operation k only, for every k (in memory, and on the OS backend in the thorough tier) / 12 sampled k (OS backend, quick), " +
 		"followed by CleanEntry (after the lock went stale) and Fetch by a fresh client; (2) the same without a previous version; (3) 2..4 clients storing v1..v3, fetching and cleaning concurrently; (4) remote paths containing \".part\"; (5) immutable cache: another client's complete Store(v3) right before every backend operation of a CleanEntry / Fetch. " +
 		"non-trivial = the fault hits the Store (k ≤ number of operations of the un-faulted Store); distinct = (kind, backend, scenario, fault mode, k).")
